@@ -281,6 +281,22 @@ def cacheKeys (ft : FTree) (leftOut : Nat) : Option (List (Nat × Nat)) := do
       let nxt ← nd.lookup x
       pure (x, nxt))
 
+/-- the segments of the TDVP sweep: `(u_i, orthogonalization_path[i][0])` for `i < m - 1`, where
+    `orthogonalization_path[i] = path_from_to(u_i, u_{i+1})[1:]` -/
+def segsAlong (ft : FTree) : List Nat → Option (List (Nat × Nat))
+  | a :: b :: rest => do
+    let p ← ft.pathFromTo a b
+    let h ← p[1]?
+    let more ← segsAlong ft (b :: rest)
+    some ((a, h) :: more)
+  | _ => some []
+
+def segs (ft : FTree) : Option (List (Nat × Nat) × Nat) := do
+  let up ← ft.updatePath
+  let sg ← ft.segsAlong up
+  let last ← up.getLast?
+  some (sg, last)
+
 end FTree
 
 /-! ## Ordered rooted trees: specifications and structural versions -/
@@ -540,6 +556,28 @@ def walkEdges (t : RTree) : List Nat → Option (List (Nat × Nat))
   | a :: b :: rest =>
     (pathFromTo t a b).bind fun p => (walkEdges t (b :: rest)).map (fun w => pathEdges p ++ w)
   | _ => some []
+
+/-- the first node after `a` on the way to `b`: `path_from_to(a, b)[1]` -/
+def firstHop (t : RTree) (a b : Nat) : Option Nat := (pathFromTo t a b).bind (fun p => p[1]?)
+
+/-- segments `(u_i, orthogonalization_path[i][0])` along a list of nodes -/
+def segsAlong (t : RTree) : List Nat → Option (List (Nat × Nat))
+  | a :: b :: rest =>
+    (firstHop t a b).bind fun h => (segsAlong t (b :: rest)).map (fun more => (a, h) :: more)
+  | _ => some []
+
+/-- the segments of the TDVP sweep (`none` only if a path computation failed) -/
+def segsOf? (t : RTree) : Option (List (Nat × Nat)) := (updatePath t).bind (segsAlong t)
+
+/-- the segments of the TDVP sweep; on a well-formed tree `segsOf? t = some (segsOf t)` -/
+def segsOf (t : RTree) : List (Nat × Nat) := (segsOf? t).getD []
+
+/-- the last node of the update path; on a well-formed tree it exists -/
+def lastOf (t : RTree) : Nat := ((updatePath t).bind List.getLast?).getD t.rid
+
+/-- `neighbouring_nodes()` of node `n`: the parent (if any) first, then the children in order -/
+def nbrsOf (t : RTree) (n : Nat) : List Nat :=
+  ((edges t).filter (fun e => e.2 == n)).map (·.1) ++ ((edges t).filter (fun e => e.1 == n)).map (·.2)
 
 /-! ### Keys of the initial cache -/
 
